@@ -64,27 +64,26 @@ def isTagChar (c : Char) : Bool := c.isAlphanum || c == '_' || c == '.'
 /-- the pending tag (characters accumulated in reverse) becomes a token -/
 def flush (acc : List Char) : List Tok := if acc.isEmpty then [] else [.tag acc.reverse]
 
-/-- the lexer as a state machine over the characters; `acc` = the tag being read (reversed) -/
-def lexGo : List Char → List Char → List Tok
-  | acc, [] => flush acc
-  | acc, c :: cs =>
-    if isTagChar c then lexGo (c :: acc) cs
+def opTok (p : Char) : Tok := if p = '&' then .andand else .oror
+
+/-- the lexer as a state machine over the characters.  `acc` = the tag being read (reversed);
+`pend = some p` = a single `&` or `|` has been read and its twin must follow
+(Go: `p.s[p.i+1] != p.s[p.i]` ⇒ "invalid syntax at &"). -/
+def lexGo : Option Char → List Char → List Char → List Tok
+  | some p, _, [] => [.bad p]
+  | some p, _, c :: cs => if c = p then opTok p :: lexGo none [] cs else [.bad p]
+  | none, acc, [] => flush acc
+  | none, acc, c :: cs =>
+    if isTagChar c then lexGo none (c :: acc) cs
     else flush acc ++
-      (if c = ' ' ∨ c = '\t' then lexGo [] cs
-       else if c = '(' then .lp :: lexGo [] cs
-       else if c = ')' then .rp :: lexGo [] cs
-       else if c = '!' then .bang :: lexGo [] cs
-       else if c = '&' then
-         (match cs with
-          | '&' :: cs' => .andand :: lexGo [] cs'
-          | _ => [.bad '&'])
-       else if c = '|' then
-         (match cs with
-          | '|' :: cs' => .oror :: lexGo [] cs'
-          | _ => [.bad '|'])
+      (if c = ' ' ∨ c = '\t' then lexGo none [] cs
+       else if c = '(' then .lp :: lexGo none [] cs
+       else if c = ')' then .rp :: lexGo none [] cs
+       else if c = '!' then .bang :: lexGo none [] cs
+       else if c = '&' ∨ c = '|' then lexGo (some c) [] cs
        else [.bad c])
 
-def lexAll (cs : List Char) : List Tok := lexGo [] cs
+def lexAll (cs : List Char) : List Tok := lexGo none [] cs
 
 /-! ## parser -/
 
